@@ -714,4 +714,28 @@ def setSizeCursorC (s : Sline) (sz cursor : Nat) : Sline :=
 
 end Sline
 
+/-! ### round 3b: the ring offsets of the history at their C width
+
+`readline_history_pointer`: `int idx = (rl->headhist + rl->history_size - num) % rl->history_size;`
+(all `unsigned int`), `rl->history_space + idx * rl->line.cap` — `int * unsigned int` is an `unsigned
+int` product, it wraps modulo 2^32 BEFORE it is added to the pointer; the push computes
+`rl->headhist * rl->line.cap` the same way, `readline_history_init` clears `rl->line.cap * hsize`
+bytes.  (`histOff` above is the unbounded offset the theorems use; `ring_offsets_width_partial`
+proves them equal for a ring below 4 GiB.) -/
+
+namespace Readline
+
+/-- byte offset `readline_history_pointer(rl, num)` really adds to `history_space` -/
+def histOffC (rl : Readline) (num : Nat) : Nat :=
+  let idx : BitVec 32 := (Sline.u32 rl.headhist + Sline.u32 rl.hsize - Sline.u32 num) % Sline.u32 rl.hsize
+  (idx * Sline.u32 rl.line.cap).toNat
+
+/-- byte offset of the slot `_readline_push_line_to_history` writes -/
+def pushOffC (rl : Readline) : Nat := (Sline.u32 rl.headhist * Sline.u32 rl.line.cap).toNat
+
+/-- number of bytes `readline_history_init` clears -/
+def clearedC (rl : Readline) : Nat := (Sline.u32 rl.line.cap * Sline.u32 rl.hsize).toNat
+
+end Readline
+
 end Igris.C15
